@@ -84,3 +84,46 @@ Proof.
   { destruct (setfenv_changes_only_that_lemma 2 [] 0 1 [] st) as [H _]. rewrite H in H1. inversion H1. reflexivity. }
   subst s'. vm_compute. reflexivity.
 Qed.
+
+(* ---- tables of globals of threads (coq/Fenv; wave 5) ---- *)
+From GL Require Import Fenv.FenvModel Fenv.FenvFacts.
+Open Scope Z_scope.
+
+Definition env_inspect : list op := [OGetT; OGetSelf; ORead 0; OLoad 2 [OGetSelf; ORead 0]; OCall 2].
+Definition env_script : list op :=
+  [OWrite 0 100; OSetT 1; OClosure 1 env_inspect; OCoCreate 1 1 false; OSetT 2; OCoResume 1; OGetT; OGetCo 1].
+
+(* the coroutine created while the table of globals was T1 still sees T1 after the creator moved on
+   to T2 (getfenv(0) = 1, the chunk it loads gets 1 and finds no gx there); its body, a closure of
+   the main chunk, keeps the main chunk's environment (0, where gx = 100) *)
+Example ex_env_run : env_run 100 3 env_script [OGetT] = Some [1; 0; 100; 1; -1; 2; 1; 2].
+Proof. vm_compute. reflexivity. Qed.
+
+(* the state just before the coroutine is created satisfies the hypotheses of
+   thread_env_inherited_at_creation / setfenv0_only_this_thread, and the conclusions are the concrete facts *)
+Definition env_s3 : FenvModel.st :=
+  simple_step main_ctx (OClosure 1 env_inspect) (simple_step main_ctx (OSetT 1) (simple_step main_ctx (OWrite 0 100) (env_init 3 env_script))).
+
+Example ex_env_create_hyps :
+  aget (s_F env_s3) 1 = Some 1%nat /\ (c_th main_ctx < length (s_ths env_s3))%nat.
+Proof. split; [reflexivity | vm_compute; lia]. Qed.
+
+Example ex_env_create :
+  let s' := simple_step main_ctx (OCoCreate 1 1 false) env_s3 in
+  aget (s_C s') 1 = Some 1%nat /\ t_env (getth s' 1) = 1%nat /\
+  t_env (getth (simple_step main_ctx (OSetT 2) s') 1) = 1%nat /\
+  t_env (getth (simple_step main_ctx (OSetT 2) s') 0) = 2%nat.
+Proof.
+  intros s'.
+  destruct (cocreate_inherits_creator_env main_ctx env_s3 1 1 false 1 eq_refl) as (H1 & H2 & _).
+  destruct (setT_only_this_thread main_ctx s' 2) as (A & B & _); [vm_compute; lia|].
+  split; [exact H1|]. split; [exact (f_equal t_env H2)|].
+  split; [rewrite (B 1%nat) by discriminate; exact (f_equal t_env H2) | exact A].
+Qed.
+
+Example ex_env_extends : forall s', env_exec 100 main_ctx env_script (env_init 3 env_script) = Some s' ->
+  f_body (getfn s' 0) = env_script /\ t_fn (getth s' 0) = 0%nat.
+Proof.
+  intros s' H. destruct (exec_extends _ _ _ _ _ H) as (_ & _ & Hb & Ht).
+  split; [apply (Hb 0%nat); simpl; lia | apply (Ht 0%nat); simpl; lia].
+Qed.
